@@ -11,8 +11,9 @@ def run(ctx):
                 "(EexecTest identity), and emits reference vectors against which the harness's own cipher is checked. "
                 "MC_Eexec: TLC picks plaintext programs (defs, readstring with hostile binary data, dict left open, "
                 "closefile inside procedures, no closefile, short data) x form (binary, hex lower/upper/mixed) x every "
-                "legal pattern of lead-byte classes x white-space patterns after the first four digits x blanks after "
-                "eexec x trailer; PSMachine prescribes the final state of the equivalent plaintext run with systemdict "
+                "legal pattern of lead-byte classes x white-space patterns after the first four digits (up to three white-space "
+                "bytes between any two cipher bytes) x blanks after eexec x the white space that ends the section (LF, CR, CR LF) x "
+                "trailer, with the first or the last cipher byte placed at the scanner's refill boundaries; PSMachine prescribes the final state of the equivalent plaintext run with systemdict "
                 "pushed; the harness encrypts with its own cipher, lays the section out and compares the interpreter "
                 "state. Cipher coverage: a long random binary section read back through readstring.")
     ctx.assumptions = ["white space inside the first four hex digits and sections whose plaintext does not end in white "
